@@ -87,10 +87,11 @@ def coerce_runtime(t, v):
     if is_input_object_type(t):
         out = {}
         for fname, f in t.fields.items():
+            key = getattr(f, "out_name", None) or fname
             if fname in v:
-                out[fname] = coerce_runtime(f.type, v[fname])
+                out[key] = coerce_runtime(f.type, v[fname])
             elif f.ast_node is not None and f.ast_node.default_value is not None:
-                out[fname] = coerce_literal(f.type, f.ast_node.default_value, {})
+                out[key] = coerce_literal(f.type, f.ast_node.default_value, {})
         return out
     name = t.name
     if name == "Float":
@@ -117,17 +118,18 @@ def coerce_literal(t, node, variables):
         provided = {f.name.value: f.value for f in node.fields}
         out = {}
         for fname, f in t.fields.items():
+            key = getattr(f, "out_name", None) or fname
             vnode = provided.get(fname, UNSET)
             if vnode is not UNSET and isinstance(vnode, VariableNode):
                 if vnode.name.value in variables:
-                    out[fname] = variables[vnode.name.value]
+                    out[key] = variables[vnode.name.value]
                     continue
                 vnode = UNSET  # a variable without value counts as not provided
             if vnode is UNSET:
                 if f.ast_node is not None and f.ast_node.default_value is not None:
-                    out[fname] = coerce_literal(f.type, f.ast_node.default_value, {})
+                    out[key] = coerce_literal(f.type, f.ast_node.default_value, {})
                 continue
-            out[fname] = coerce_literal(f.type, vnode, variables)
+            out[key] = coerce_literal(f.type, vnode, variables)
         return out
     name = t.name
     if isinstance(node, IntValueNode):
@@ -169,6 +171,7 @@ def coerce_args(arg_defs, node, variables):
     out = {}
     for name, ad in arg_defs.items():
         t = ad.type
+        key = getattr(ad, "out_name", None) or name  # the Python-side keyword of the argument
         vnode = given.get(name, UNSET)
         has_default = ad.ast_node is not None and ad.ast_node.default_value is not None
         if vnode is not UNSET and isinstance(vnode, VariableNode):
@@ -176,16 +179,16 @@ def coerce_args(arg_defs, node, variables):
             if vn in variables:
                 if variables[vn] is None and is_non_null_type(t):
                     raise ArgError(name)  # null for a non-null argument: field error
-                out[name] = variables[vn]
+                out[key] = variables[vn]
                 continue
             vnode = UNSET
         if vnode is UNSET:
             if has_default:
-                out[name] = coerce_literal(t, ad.ast_node.default_value, {})
+                out[key] = coerce_literal(t, ad.ast_node.default_value, {})
             elif is_non_null_type(t):
                 raise ArgError(name)
             continue
-        out[name] = coerce_literal(t, vnode, variables)
+        out[key] = coerce_literal(t, vnode, variables)
     return out
 
 
